@@ -496,7 +496,9 @@ class Ctx:
               "coverage": cov, "assumptions": TRUSTED_BASE, "wall_s": round(wall, 2),
               "violations": violations}
         os.makedirs(os.path.join(VERIF, "evidence"), exist_ok=True)
-        with open(os.path.join(VERIF, "evidence", f"{self.prop}.json"), "w") as f:
+        # a --replay run describes one case: it must not overwrite the evidence of the last full check
+        name = f"{self.prop}.replay.json" if getattr(self, "replay_mode", False) else f"{self.prop}.json"
+        with open(os.path.join(VERIF, "evidence", name), "w") as f:
             json.dump(ev, f, indent=1, default=str)
         for l in lines:
             print(l, flush=True)
